@@ -7,7 +7,7 @@ RULE = ('the histories of C02 (seeded random API histories, all op kinds/paramet
         'step the on-disk state is read with sqlite3 + byte slices + zlib only: every row inside an existing pack, no two '
         'non-empty ranges of a pack overlapping, no key indexed twice, the range (inflated exactly, no unused bytes) hashes to '
         'its key and has the recorded size, length==size when uncompressed, every loose file named by its digest, and every '
-        'model key recoverable raw; every 5th step the bash recovery script extracted from docs/pages/design.md is run on '
+        'model key recoverable raw; at the end of every history (thorough: also every 6th step) the bash recovery script extracted from docs/pages/design.md is run on '
         'sampled packed objects. Distinct by (configuration, op kinds+flags); non-trivial with >= 3 op kinds.')
 ASSUMPTIONS = ['zlib-flate (qpdf, not installed) in the documented script is replaced by a 2-line python zlib filter',
                'object sizes <= 1.3 MiB']
@@ -17,8 +17,9 @@ TECHNIQUE = 'runtime monitoring: library-independent raw reader (sqlite3+slice+z
 
 def cases(ctx):
     n = ctx.pick(260, 6000)
-    out = [{'prop': PROPERTY, 'seed': ctx.seed * 1000003 + i, 'monitors': MONITORS, 'steps': (8, 40)} for i in range(n)]
-    for i in range(ctx.pick(4, 60)):
+    out = [{'prop': PROPERTY, 'seed': ctx.seed * 1000003 + i, 'monitors': MONITORS, 'steps': (8, 40),
+            'recovery_every': ctx.pick(0, 6)} for i in range(n)]
+    for i in range(ctx.pick(2, 60)):
         out.append({'prop': PROPERTY, 'seed': ctx.seed * 1000003 + 500000 + i, 'monitors': MONITORS,
                     'steps': (120, 200), 'pack_targets': [50, 500], 'gen': {'big_p': 0.0, 'chunk_p': 0.01}})
     return out
